@@ -65,6 +65,8 @@ def sel_case(draw, tier):
          "form": draw(st.sampled_from(["lists", "lists", "lists", "records", "records"] + catgen.FORMS)),
          # the field given bare, or as a one-element list / tuple (still ONE field: the predicate sees the cell itself)
          "field_form": draw(st.sampled_from(["bare", "bare", "list1", "tuple1"])),
+         # the input is the output of another row selection that keeps every row (made with ITS OWN missing value)
+         "chain": draw(st.sampled_from([None, None, None, "select-all", "rowlenselect-all", "biselect-all", "selectnotnone-all"])),
          "complement": draw(st.booleans()), "value": draw(st.one_of(st.sampled_from(p), POOLV)),
          "value2": draw(st.one_of(st.sampled_from(p), POOLV))}
     if pair is not None and draw(st.booleans()):
@@ -113,6 +115,17 @@ def check_sel(case, ctx):
         T = codec.snapshot(tbl)
     else:
         T = catgen.shape(codec.snapshot(tbl), case.get("form", "lists"))
+    chain = case.get("chain")
+    if chain == "select-all":
+        T = etl.select(T, lambda rec: True, missing="UPSTREAM")
+    elif chain == "rowlenselect-all":
+        T = etl.rowlenselect(T, -1, complement=True)
+    elif chain == "biselect-all":
+        T = etl.biselect(T, lambda rec: True, missing="UPSTREAM")[0]
+    elif chain == "selectnotnone-all":
+        T = etl.select(T, "{%s} != 'no such value'" % hdr[0], missing="UPSTREAM")
+    if chain:
+        ctx.label("chained:" + chain)
     args, kw = (), {"complement": comp}
     if sel in ("selectlt", "selectle", "selectgt", "selectge"):
         sign = {"selectlt": lambda c: c < 0, "selectle": lambda c: c <= 0, "selectgt": lambda c: c > 0, "selectge": lambda c: c >= 0}[sel]
@@ -208,7 +221,12 @@ def part_case(draw, tier):
         nf = draw(st.sampled_from([2, 3]))
         hdr = ["a", "b", "c"][:nf]
     ragged = kind not in ("search-field", "search-fields", "facet", "facet-compound") and draw(st.booleans())
-    tbl = draw(gen.table(hdr, [cell] * nf, max_rows=7 if tier == "quick" else 14, ragged=ragged))
+    rkw = {}
+    if kind == "search" and draw(st.booleans()):
+        # whole-row search: "anywhere in the row" includes cells beyond the header - make long rows common
+        ragged, rkw = True, {"ragged_odds": 2, "ragged_min": nf}
+    tbl = draw(gen.table(hdr, [cell] * nf, max_rows=7 if tier == "quick" else 14, ragged=ragged,
+                         extra=st.sampled_from(["a", "xa", "7", "x", None, "A"]), **rkw))   # surplus cells the patterns can match
     return {"kind": kind, "table": tbl, "field": draw(st.sampled_from(hdr)), "pattern": draw(st.sampled_from(PATTERNS)),
             "fields": draw(st.permutations(hdr))[:2],
             "n": draw(st.integers(0, nf + 1)), "flags": draw(st.sampled_from([0, re.I]))}
